@@ -309,7 +309,10 @@ impl RuntimeData {
             if let Value::Object(mut t) = val {
                 unsafe {
                     let t = t.as_mut();
-                    t.marker = GcMarker::Gray;
+                    // a guarded object stays protected: the unmark phase would whiten a gray one
+                    if !matches!(t.marker, GcMarker::Protected) {
+                        t.marker = GcMarker::Gray;
+                    }
                     progress_tracker.push(t);
                 }
             }
@@ -319,7 +322,9 @@ impl RuntimeData {
             if let Value::Object(mut t) = val {
                 unsafe {
                     let t = t.as_mut();
-                    t.marker = GcMarker::Gray;
+                    if !matches!(t.marker, GcMarker::Protected) {
+                        t.marker = GcMarker::Gray;
+                    }
                     progress_tracker.push(t);
                 }
             }
